@@ -450,6 +450,22 @@ LeaveFx(S, s, how, reason) ==
   IN Emit(Sh, s, [Base EXCEPT !.k = "CLOSED", !.t = S.now])
 
 \* --------------------------------------------------------------------------
+\* the realm is closed (RemoveRealm / router Close): every attached session is told
+\* GOODBYE wamp.close.system_shutdown and its transport is closed; no meta events
+SystemShutdown == "wamp.close.system_shutdown"
+CloseRealmFx(S) ==
+  LET js == SetToSeq(Joined(S))
+      ms(s) == << [to |-> s, m |-> [Base EXCEPT !.k = "GOODBYE", !.e = SystemShutdown, !.t = S.now]],
+                  [to |-> s, m |-> [Base EXCEPT !.k = "CLOSED", !.t = S.now]] >>
+      RECURSIVE all(_)
+      all(i) == IF i > Len(js) THEN <<>> ELSE ms(js[i]) \o all(i + 1)
+  IN [S EXCEPT !.sess = [s \in DOMAIN @ |-> [@[s] EXCEPT !.st = "gone"]],
+               !.subs = [k \in DOMAIN S.hist |-> [@[k] EXCEPT !.members = {}]],
+               !.regs = <<>>, !.calls = <<>>,
+               !.tst = [s \in DOMAIN @ |-> <<>>],
+               !.em = @ \o all(1)]
+
+\* --------------------------------------------------------------------------
 \* authorizer gate (C10).  cfg.authz = sequence of rules [mt, who, dec]; the first
 \* rule whose message type and sender class match decides; no rule = allow.
 \* Local sessions are not subject to authorization unless cfg.lauthz.
